@@ -566,7 +566,24 @@ class World(object):
     # -- deliver ----------------------------------------------------------------------------
     def op_mark(self, aid, status):
         a = self.inflight.get(aid)
-        if a is None or a["state"] == status or a["state"] == "running":
+        if a is not None and status == "canceling":
+            # an action acknowledges the cancellation before it reports canceled (lifecycle order)
+            if not self.cancel_req or a["state"] == "canceling":
+                self.bump("op_skipped")
+                return False
+            if a["state"] != "running":
+                a["state"] = "running"
+                ev = events.ActionExecutionEvent("running") if a["item"] is None else events.TaskItemActionExecutionEvent(a["item"], "running")
+                self.call("update_task_state", a["task"], a["route"], ev)
+                self.after_call("mark")
+            a["state"] = "canceling"
+            ev = events.ActionExecutionEvent("canceling") if a["item"] is None else events.TaskItemActionExecutionEvent(a["item"], "canceling")
+            self.call("update_task_state", a["task"], a["route"], ev)
+            self.after_call("mark")
+            self.bump("fault_act_canceling")
+            self.check_state("mark")
+            return True
+        if a is None or a["state"] == status or a["state"] in ("running", "canceling"):
             self.bump("op_skipped")
             return False
         a["state"] = status
@@ -583,6 +600,11 @@ class World(object):
             if a is None:
                 self.bump("op_skipped")
                 return False
+        if status == "succeeded" and a["state"] == "canceling":
+            # an action that acknowledged the cancellation ends canceled (or abended), never
+            # succeeded: the task table defines no such transition, StackStorm does not do it
+            self.bump("op_skipped")
+            return False
         if status == "canceled" and not self.cancel_req:
             # (H5) an action reports canceled only after a cancel request: not admissible here
             self.bump("op_skipped")
@@ -592,7 +614,7 @@ class World(object):
         if self.terminal_seen is not None:
             self.late_after_terminal += 1
             self.bump("fault_late")
-        if a["state"] not in ("running", "pending"):
+        if a["state"] not in ("running", "pending", "canceling"):
             a["state"] = "running"
             ev = events.ActionExecutionEvent("running") if a["item"] is None else events.TaskItemActionExecutionEvent(a["item"], "running")
             self.call("update_task_state", tid, route, ev)
@@ -1120,6 +1142,15 @@ class World(object):
                             % [(b["join"], b["route"]) for b in ub])
         if st in ("succeeded",) :
             pass
+        # an unreachable-join error must name a join whose barrier really is partially satisfied
+        if st == "failed" and not self.inflight and not self.accepted_rerun:
+            for e in self.snap["errors"]:
+                if "UnreachableJoinError" in (e.get("message") or "") and e.get("task_id") in L.req:
+                    b = L.barriers.get((e.get("task_id"), e.get("route")))
+                    if b is not None and b["fired"]:
+                        self.report("C07", "unreachable_only_if_unsatisfied", "workflow failed with %r although the "
+                                    "barrier of %s@%s was satisfied by %r" % (e.get("message"), e.get("task_id"),
+                                                                             e.get("route"), b["srcs"]))
         # an unreachable join at the end must have failed the workflow with an error naming it
         ub = L.unsatisfied_barriers()
         oc = [c for c in L.outstanding() if not c.cleanup]
